@@ -11,6 +11,7 @@ package c04
 //	tokens carry subject, client, scopes, nonce of the request.
 
 import (
+	"testing"
 	"crypto"
 	"crypto/ecdsa"
 	"crypto/ed25519"
@@ -371,4 +372,18 @@ func has(l []string, s string) bool {
 		}
 	}
 	return false
+}
+
+// TestNearMissTable: every near-miss derivation differs from the original string (so the model refuses it).
+func TestNearMissTable(t *testing.T) {
+	for _, u := range []string{"https://shared.example.com/cb", "https://rp-c0.example.com/cb?tenant=a&mode=x", "https://bare-c1.example.com",
+		"https://rp-c2.example.com:8443/auth/callback/", "com.example.app:/cb", "https://shared.example.com/cb?tenant=a"} {
+		for _, k := range nearKinds {
+			d := nearMiss(k, u)
+			if d == u || d == "" {
+				t.Errorf("%s of %q is not a near miss: %q", k, u, d)
+			}
+			t.Logf("%-14s %-50s -> %s", k, u, d)
+		}
+	}
 }
